@@ -67,7 +67,10 @@ Ltac finish :=
   rw_guard; cbn [andb]; try reflexivity.
 
 Lemma dt_date_midnight : forall d, datetime_to_db (d * US_DAY) None = d * 86400000.
-Proof. intros d. unfold datetime_to_db, tz_off, US_DAY. lia. Qed.
+Proof.
+  intros d. unfold datetime_to_db, tz_off, US_DAY. replace (d * 86400000000 - 0) with (d * 86400000 * 1000) by lia.
+  apply Z.quot_mul. lia.
+Qed.
 
 Lemma scalar_R : forall c v,
   (forall c1, c <> CList c1) -> (forall c1, c <> CSet c1) -> (forall k w, c <> CMap k w) ->
@@ -89,8 +92,16 @@ Proof.
        repeat match goal with
               | H : match round32 ?x with _ => _ end = true |- _ => destruct (round32 x) as [[? ?]|] eqn:?; [|discriminate H]
               end;
+       repeat match goal with
+              | Hr : round32 (?m, _) = Some (?m', _) |- _ =>
+                  lazymatch goal with
+                  | Hc : ((m' =? 0) && (m <? 0)) = _ |- _ => fail
+                  | _ => destruct ((m' =? 0) && (m <? 0)) eqn:?
+                  end
+              end;
        do 2 eexists; (split; [reflexivity|]); cbn; unfold float_value32;
        repeat match goal with Hr : round32 _ = _ |- _ => rewrite Hr end;
+       repeat match goal with Hc : ?g = _ |- context [if ?g then _ else _] => rewrite Hc end;
        rw_guard; cbn [andb];
        (split; [reflexivity | try reflexivity; f_equal; f_equal; unfold EPOCH_OFFSET_DAYS; repeat match goal with |- context [if ?b then _ else _] => destruct b eqn:? end; lia]).
 Qed.
@@ -131,8 +142,8 @@ Proof.
     repeat split; reflexivity.
 Qed.
 
-Lemma to_db_none : forall c, is_blob c = false -> to_database c PNone = Some PNone.
-Proof. intros c H. destruct c; try reflexivity. discriminate H. Qed.
+Lemma to_db_none : forall c, to_database c PNone = Some PNone.
+Proof. intros c. destruct c; reflexivity. Qed.
 
 Lemma cql_value_none : forall r t, cql_value r t PNone = None.
 Proof. intros r t. destruct t; reflexivity. Qed.
@@ -162,7 +173,7 @@ Proof.
 Qed.
 
 Lemma zip_tuple_R : forall cs, Forall RP cs -> forall l,
-  forall2b (fun c' x => if is_none x then negb (is_blob c') else valid c' x) cs l = true ->
+  forall2b (fun c' x => if is_none x then true else valid c' x) cs l = true ->
   exists xs vs, zipM (map to_database cs) l = Some xs /\
     zipM (map (fun t' => opt_field (cql_value false t')) (map cql_type cs)) xs = Some vs /\
     zipM (map (fun t' => opt_field (cql_value true t')) (map cql_type cs)) l = Some vs /\
@@ -175,8 +186,7 @@ Proof.
     + cbn [forall2b] in H. apply andb_prop in H. destruct H as [Hx Hl].
       destruct (IH l Hl) as (xs & vs & E1 & E2 & E3 & E4).
       destruct (field_R c x (to_database c) Hc) as (x' & a & F1 & F2 & F3).
-      * intros En. rewrite En in Hx. destruct x; try discriminate En. apply to_db_none.
-        destruct (is_blob c); [discriminate Hx | reflexivity].
+      * intros En. destruct x; try discriminate En. apply to_db_none.
       * intros En. rewrite En in Hx. split; [reflexivity | exact Hx].
       * exists (x' :: xs), (a :: vs). cbn [map zipM]. rewrite E1, E2, E3, F1, F2, F3. cbn [length]. rewrite E4.
         repeat split; reflexivity.
@@ -187,9 +197,6 @@ Definition udt_field (f : col) (x : pyval) : option pyval :=
   | PNone => if is_container f then to_database f x else Some PNone
   | _ => to_database f x
   end.
-
-Lemma container_not_blob : forall c, is_container c = true -> is_blob c = false.
-Proof. intros c H. destruct c; try reflexivity. discriminate H. Qed.
 
 Lemma zip_udt_R : forall fs, Forall RP fs -> forall l,
   forall2b (fun c' x => if is_none x then true else valid c' x) fs l = true ->
@@ -206,7 +213,7 @@ Proof.
       destruct (IH l Hl) as (xs & vs & E1 & E2 & E3 & E4).
       destruct (field_R c x (udt_field c) Hc) as (x' & a & F1 & F2 & F3).
       * intros En. destruct x; try discriminate En. unfold udt_field.
-        destruct (is_container c) eqn:Ec; [|reflexivity]. apply to_db_none, container_not_blob, Ec.
+        destruct (is_container c) eqn:Ec; [|reflexivity]. apply to_db_none.
       * intros En. rewrite En in Hx. split; [|exact Hx]. destruct x; try reflexivity. discriminate En.
       * exists (x' :: xs), (a :: vs). cbn [map zipM]. rewrite E1, E2, E3, F1, F2, F3. cbn [length]. rewrite E4.
         repeat split; reflexivity.
@@ -240,7 +247,7 @@ Proof.
     rewrite E1, E3. cbn [option_map]. rewrite E2. repeat split; reflexivity.
   - (* Tuple *)
     cbn [valid] in Hv.
-    assert (HL : forall l, forall2b (fun c' x => if is_none x then negb (is_blob c') else valid c' x) cs l = true ->
+    assert (HL : forall l, forall2b (fun c' x => if is_none x then true else valid c' x) cs l = true ->
                  forall mk, (mk = PList \/ mk = PTuple) -> R (CTuple cs) (mk l)).
     { intros l Hl mk Hmk. destruct (zip_tuple_R cs H l Hl) as (xs & vs & E1 & E2 & E3 & E4).
       pose proof (forall2b_len _ _ _ _ _ Hl) as Hlen.
@@ -257,10 +264,14 @@ Proof.
 Qed.
 
 (* ------------------------------------------------------------------ DateTime: exact millisecond *)
-Lemma datetime_floor : forall wall tz,
-  1000 * datetime_to_db wall tz <= wall - tz_off tz wall < 1000 * datetime_to_db wall tz + 1000.
-Proof. intros. unfold datetime_to_db. lia. Qed.
+Lemma datetime_bracket : forall wall tz,
+  let i := wall - tz_off tz wall in let ms := datetime_to_db wall tz in
+  (0 <= i -> 1000 * ms <= i < 1000 * ms + 1000) /\ (i <= 0 -> 1000 * ms - 1000 < i <= 1000 * ms).
+Proof.
+  intros wall tz i ms. unfold ms, datetime_to_db. fold i. generalize i. clear. intros i.
+  lia.
+Qed.
 
 Lemma datetime_exact : forall wall tz ms,
   wall - tz_off tz wall = 1000 * ms -> datetime_to_db wall tz = ms.
-Proof. intros. unfold datetime_to_db. lia. Qed.
+Proof. intros wall tz ms H. unfold datetime_to_db. rewrite H. rewrite Z.mul_comm. apply Z.quot_mul. lia. Qed.
